@@ -743,3 +743,9 @@ func lexLess(a, b []int) bool {
 	}
 	return len(a) < len(b)
 }
+
+// Dead reports that the node was invalidated (a node of a discarded bind generation).
+func (e *Exec) Dead(id int) bool {
+	ref := e.Nodes[id]
+	return ref != nil && !ref.Recycled && !incr.ExpertNode(ref.INode).IsValid()
+}
